@@ -12,6 +12,8 @@ Arguments N.leb : simpl never.
 
 Definition bytes := list N.
 
+Definition is_empty {A} (b : list A) : bool := match b with [] => true | _ => false end.
+
 (* ---------- equality and lexicographic order on byte strings ---------- *)
 
 Fixpoint beq (a b : bytes) : bool :=
